@@ -263,9 +263,13 @@ EmitRst == /\ IsEvent("emit") /\ Ev.kind = "tcp" /\ expect.kind = "rst"
 \* after the (optional) reset: no further TCP frame for that 4-tuple unless a socket took the segment;
 \* the expectation ends at the next op event
 SameTuple(e) == e.src = expect.src /\ e.dst = expect.dst /\ e.sport = expect.sport /\ e.dport = expect.dport
-EmitTcpOther == /\ IsEvent("emit") /\ Ev.kind = "tcp" /\ expect.kind \in {"notcp", "none"}
+\* (while another expectation is open, frames of OTHER 4-tuples may still appear: replies that come from protocol goroutines -
+\*  a listener's SYN-ACK, the final ACK of an active open - can be later than the settle that followed their cause)
+EmitTcpOther == /\ IsEvent("emit") /\ Ev.kind = "tcp"
                 /\ ~(HasFlag(Ev, "S") /\ ~HasFlag(Ev, "A") /\ ~HasFlag(Ev, "R") /\ SynOf(Ev) # {})
-                /\ (expect.kind = "notcp" /\ SameTuple(Ev)) => expect.tosock
+                /\ (IF expect.kind = "none" THEN TRUE
+                    ELSE IF expect.kind = "notcp" THEN (SameTuple(Ev) => expect.tosock)
+                    ELSE ~SameTuple(Ev))
                 /\ UNCHANGED <<addrs, promisc, socks, q, pemit, expect>>
 \* (the reset of the no-socket path is emitted synchronously inside the injection, so it must be there at the next settle;
 \* the final ACK of an active open and the SYN-ACK of a listener come from protocol goroutines: they may be late, so such an
